@@ -463,7 +463,7 @@ def keyed_op_scenarios(rng, tier, lanes=("S", "Aa", "Ta")):
     idx = 0
     for lane in lanes:
         for kind in ("first", "overwrite", "remove", "remove_fully", "first_meta", "overwrite_hash_exists",
-                     "overwrite_long", "remove_long"):
+                     "overwrite_long", "remove_long", "link_first", "link_over"):
             prog = {"keys": {}, "blobs": {}, "steps": []}
             key = G.add_key(prog, "ключ-é-☃-%d" % idx)
             other = G.add_key(prog, "other-%d" % idx)
@@ -478,8 +478,11 @@ def keyed_op_scenarios(rng, tier, lanes=("S", "Aa", "Ta")):
                     warm.append({"op": "write", "lane": rng.choice(["S", "Aa", "Ta"]), "key": key,
                                  "data": rng.choice([d_old, d_oth]), "algo": "sha256"})
                 warm.append({"op": "write", "lane": "S", "key": key, "data": d_old, "algo": "sha256"})
-            if kind in ("overwrite", "remove", "remove_fully", "overwrite_hash_exists"):
+            if kind in ("overwrite", "remove", "remove_fully", "overwrite_hash_exists", "link_over"):
                 warm.append({"op": "write", "lane": rng.choice(["S", "Aa"]), "key": key, "data": d_old, "algo": "sha256"})
+            if kind.startswith("link_"):
+                # the entry's content is a symlink to a file outside the cache (feature link_to)
+                warm.append({"op": "env_ext", "id": "lt%d" % idx, "blob": d_new})
             if kind == "overwrite_hash_exists":
                 warm.append({"op": "write", "lane": "S", "data": d_new, "algo": "sha256"})
             if kind in ("first", "overwrite", "overwrite_hash_exists", "overwrite_long"):
@@ -489,6 +492,8 @@ def keyed_op_scenarios(rng, tier, lanes=("S", "Aa", "Ta")):
                       "chunks": [(0, 10), (10, 23)], "meta": {"é": "ü☃", "n": [1, 2]}}
             elif kind in ("remove", "remove_long"):
                 st = {"op": "remove", "lane": lane, "key": key}
+            elif kind.startswith("link_"):
+                st = {"op": "link_to", "lane": lane, "key": key, "target": "lt%d" % idx}
             else:
                 st = {"op": "remove_fully", "lane": lane, "key": key}
             cont = []
